@@ -29,7 +29,7 @@ def order_theorem(rep, maxcomps, maxwidth):
         cases = tlc.read_export(out)
     finally:
         shutil.rmtree(tmp, ignore_errors=True)
-    primes = [2, 3, 5, 7, 11, 13, 17, 19, 23, 29, 31, 37, 41, 43, 47, 53]
+    primes = [2, 3, 5, 7, 11, 13, 17, 19, 23, 29, 31, 37, 41, 43, 47, 53, 59, 61, 67, 71, 73, 79, 83, 89, 97]
     for c in cases:
         rep.cov["evaluations"] += 1
         widths = c["widths"]
